@@ -513,10 +513,13 @@ var c12Alphabet = []byte{0x00, 0x10, 0x7F, 0xFF}
 
 // c12Pool returns all ranges of length 1..maxLen with bounds from the
 // alphabet, ordered by length.
-func c12Pool(maxLen int) []c12R {
+func c12Pool(maxLen int) []c12R { return c12PoolOver(c12Alphabet, maxLen) }
+
+// c12PoolOver lists every range of at most maxLen bytes with bounds from alphabet.
+func c12PoolOver(alphabet []byte, maxLen int) []c12R {
 	var pairs [][2]byte
-	for _, a := range c12Alphabet {
-		for _, b := range c12Alphabet {
+	for _, a := range alphabet {
+		for _, b := range alphabet {
 			if a <= b {
 				pairs = append(pairs, [2]byte{a, b})
 			}
@@ -885,6 +888,30 @@ func TestVerifC12(t *testing.T) {
 		i, j, k := c12Triple(c.Index, n2)
 		rs := []c12R{pool2[i], pool2[j], pool2[k]}
 		switch c.Index % 3 {
+		case 1:
+			rs[0], rs[2] = rs[2], rs[0]
+		case 2:
+			rs[0], rs[1] = rs[1], rs[0]
+		}
+		c12CheckSet(c, rs, true, 0)
+	})
+
+	// all sets of three ranges of length <= 3 with bounds from {00, 80, FF}: mixed
+	// lengths under sibling first bytes (the thorough tier enumerates all of
+	// them, the quick tier every sixth, the residue chosen by the seed)
+	poolX := c12PoolOver([]byte{0x00, 0x80, 0xFF}, 3) // 258 ranges
+	nx := len(poolX)
+	nTriples := nx * (nx - 1) * (nx - 2) / 6
+	stride := 6
+	if !r.Quick() {
+		stride = 1
+		r.Exhaustive("sets-3-len-le3-three-values")
+	}
+	r.Phase("sets-3-len-le3-three-values", nTriples/stride, func(c *kit.Case) {
+		idx := c.Index*stride + int(c.R.Seed%uint64(stride))
+		i, j, k := c12Triple(idx, nx)
+		rs := []c12R{poolX[i], poolX[j], poolX[k]}
+		switch idx % 3 {
 		case 1:
 			rs[0], rs[2] = rs[2], rs[0]
 		case 2:
